@@ -236,7 +236,7 @@ def check(model, rep, tier):
   rep.depends('C05', None,
               'reaching definitions are propagated along the edges of this graph: '
               'a missing edge loses the definitions that travel over it')
-  rep.depends('C08', ['ACT-TRAV', 'PARAMS'],
+  rep.depends('C08', None,
               'definitions are generated from the modified / bound / parameter '
               'sets of the activity analysis: a store it does not visit (walrus '
               'targets can sit in any expression field) generates no definition')
